@@ -256,3 +256,31 @@ def _for_contract(step_kind):
 
 for _sk in ("literal", "variable", "default"):
     CONTRACTS.append(_for_contract(_sk))
+
+
+# =================================================================================================
+# SemanticAnalyzer._value_matches_type: a declaration `T name = value` is well-typed exactly when the value's kind is the
+# one T names: int <- IntValue, Signal / SignalType / Memory <- SignalValue, Entity <- EntityValue, Bundle <- BundleValue
+# (dynamic bundles included); a void value matches nothing.
+# =================================================================================================
+_KINDS_ALL = ("IntValue", "SignalValue", "EntityValue", "VoidValue", "BundleValue", "DynamicBundleValue", "FunctionValue")
+_ACCEPT = {"int": {"IntValue"}, "Signal": {"SignalValue"}, "SignalType": {"SignalValue"}, "Entity": {"EntityValue"}, "Memory": {"SignalValue"},
+           "Bundle": {"BundleValue", "DynamicBundleValue"}}
+
+
+def _vmt_post(tname):
+    def post(a, res):
+        cls = a.value_type._cls_set
+        if len(cls) != 1:
+            return False
+        return res == (cls[0] in _ACCEPT[tname])
+    return post
+
+
+for _tn in _ACCEPT:
+    for _k in _KINDS_ALL:
+        CONTRACTS.append(Contract(
+            qualname=AN + "_value_matches_type",
+            params={"self": ty.TObj("SemanticAnalyzer", only=("SemanticAnalyzer",)), "value_type": ty.TObj("ValueInfo", only=(_k,)), "expected_type_name": ty.TConcrete(_tn)},
+            ensures=[(f"{_tn} accepts exactly {sorted(_ACCEPT[_tn])}", _vmt_post(_tn))],
+            properties=("C14",), min_obligations=1, no_replay=True, note=f"declared {_tn}, value {_k}"))
